@@ -159,9 +159,12 @@ func (c *mtastsPolicy) Close() error {
 }
 
 func (c *mtastsDelivery) PrepareDomain(ctx context.Context, domain string) {
-	c.policyFut = future.New()
+	// The goroutine must not use c.policyFut: it is replaced if PrepareDomain
+	// is called for another recipient domain while the fetch is still running.
+	fut := future.New()
+	c.policyFut = fut
 	go func() {
-		c.policyFut.Set(c.c.mtastsGet(ctx, domain))
+		fut.Set(c.c.mtastsGet(ctx, domain))
 	}()
 }
 
